@@ -781,8 +781,18 @@ where
         vensure!(got.as_ref() == want.get(k.min(n) + 1), "iterator-adaptor/nth", "{}: after {} calls of next(), nth(1) = {:?}, expected {:?}", what, k.min(n), got, want.get(k.min(n) + 1));
     }
     // distances beyond what an 8-bit, 16-bit or 32-bit cursor can hold
+    // (an nth() that takes time proportional to the distance - rather than to the number of items left - is slow, not wrong: the
+    // distances beyond 2^32 are only tried when nth(65537) returned at once; timing is used for this skip only, never for a verdict)
+    let mut linear_in_distance = false;
     for &d in &[255usize, 256, 257, 258, 511, 512, 65535, 65536, 65537, 1 << 32, (1 << 32) + 1, usize::MAX - 1, usize::MAX] {
+        if d > 65537 && linear_in_distance {
+            break;
+        }
+        let t0 = std::time::Instant::now();
         let got = mk().nth(d);
+        if d == 65537 && t0.elapsed() > std::time::Duration::from_micros(40 + 2 * n as u64) {
+            linear_in_distance = true;
+        }
         vensure!(got.as_ref() == want.get(d), "iterator-adaptor/nth", "{}: nth({}) = {:?}, expected {:?}", what, d, got, want.get(d));
         let got: Vec<T> = mk().skip(d).take(cap).collect();
         let exp: Vec<T> = want.iter().skip(d).cloned().collect();
